@@ -523,3 +523,84 @@ Proof.
   split; [reflexivity|]. split; [exact E2|].
   unfold sk_eqb in E. apply N.eqb_eq in E. destruct (kind_of (fst fl)); try discriminate E. reflexivity.
 Qed.
+
+(** ================================================================================================
+    O4. For every op sequence: the template-argument and field maps of every record / multiclass have pairwise
+    distinct names (one outline child per template-argument name and per field name).  Uses the decomposition
+    [apply_op_spec] of group symmap (proofs/SymbolOps.v).
+    ================================================================================================ *)
+From TG.Proofs Require Import SymbolMapBasics SymbolOps.
+
+Definition maps_ok (e : entry) : Prop :=
+  NoDup (map fst (p_targs (e_payload e))) /\ NoDup (map fst (p_fields (e_payload e))).
+
+Lemma nodup_snoc : forall (A : Type) (l : list A) x, NoDup l -> ~ In x l -> NoDup (l ++ [x]).
+Proof.
+  induction l as [|a l IH]; intros x Hn Hx; cbn [app].
+  - constructor; [intros []|constructor].
+  - inversion Hn as [|? ? Ha Hl]; subst. constructor.
+    + intros Hin. apply in_app_or in Hin. destruct Hin as [Hin|[<-|[]]]; [contradiction|]. apply Hx. now left.
+    + apply IH; [exact Hl|]. intros Hin. apply Hx. now right.
+Qed.
+
+Lemma amap_insert_nodup : forall (V : Type) (m : list (name * V)) k v,
+  NoDup (map fst m) -> NoDup (map fst (amap_insert m k v)).
+Proof.
+  intros V m k v H. rewrite amap_insert_keys.
+  destruct (existsb (fun k' => list_eqb k' k) (map fst m)) eqn:E; [exact H|].
+  apply nodup_snoc; [exact H|]. intros Hin.
+  assert (existsb (fun k' => list_eqb k' k) (map fst m) = true) as Ht.
+  { apply existsb_exists. exists k. split; [exact Hin|]. now apply list_eqb_eq'. }
+  congruence.
+Qed.
+
+Lemma maps_ok_upd_payload : forall g e, maps_ok e ->
+  (forall p, NoDup (map fst (p_targs p)) -> NoDup (map fst (p_fields p)) ->
+             NoDup (map fst (p_targs (g p))) /\ NoDup (map fst (p_fields (g p)))) ->
+  maps_ok (upd_payload g e).
+Proof. intros g e [H1 H2] Hg. unfold maps_ok, upd_payload. cbn [e_payload]. now apply Hg. Qed.
+
+Definition all_maps_ok (S : symbol_map) : Prop := forall s e, get_entry S s = Some e -> maps_ok e.
+
+Lemma all_maps_ok_apply_op : forall S o S', all_maps_ok S -> apply_op S o = SOk S' -> all_maps_ok S'.
+Proof.
+  intros S o S' Hok H. apply apply_op_spec in H. destruct H as (Ha & _ & _). unfold arenas_after in Ha.
+  intros s e He.
+  destruct (op_alloc o) as [[[k e0] keyed]|] eqn:Eo.
+  - destruct Ha as (Hg & _). rewrite Hg in He. destruct (sid_eqb s (k, next_id S k)).
+    + injection He as <-.
+      destruct o; cbn [op_alloc] in Eo; try discriminate; injection Eo as <- <- <-;
+        (split; cbn; constructor).
+    + now apply (Hok s).
+  - destruct (op_update S o) as [[t g]|] eqn:Eu.
+    + destruct Ha as (_ & Hg & _). rewrite Hg in He. destruct (sid_eqb t s).
+      * destruct (get_entry S s) as [e1|] eqn:E1; [|discriminate]. cbn [option_map] in He. injection He as <-.
+        specialize (Hok s e1 E1).
+        destruct o; cbn [op_update] in Eu; try discriminate;
+          try (destruct (cur_target S _); [|discriminate]; cbn [option_map] in Eu; injection Eu as <- <-);
+          try (injection Eu as <- <-).
+        -- (* add_reference *) exact Hok.
+        -- apply maps_ok_upd_payload; [exact Hok|]. intros p Ht Hf. destruct p; cbn in *; auto.
+           split; [now apply amap_insert_nodup|exact Hf].
+        -- apply maps_ok_upd_payload; [exact Hok|]. intros p Ht Hf. destruct p; cbn in *; auto.
+           split; [exact Ht|now apply amap_insert_nodup].
+        -- apply maps_ok_upd_payload; [exact Hok|]. intros p Ht Hf. destruct p; cbn in *; auto.
+        -- apply maps_ok_upd_payload; [exact Hok|]. intros p Ht Hf. destruct p; cbn in *; auto.
+        -- apply maps_ok_upd_payload; [exact Hok|]. intros p Ht Hf. destruct p; cbn in *; auto.
+           split; [now apply amap_insert_nodup|exact Hf].
+        -- apply maps_ok_upd_payload; [exact Hok|]. intros p Ht Hf. destruct p; cbn in *; auto.
+        -- apply maps_ok_upd_payload; [exact Hok|]. intros p Ht Hf. destruct p; cbn in *; auto.
+      * now apply (Hok s).
+    + rewrite (same_arenas_get_entry _ _ s Ha) in He. now apply (Hok s).
+Qed.
+
+Theorem outline_children_distinct : forall ops S, run_ops ops = SOk S -> all_maps_ok S.
+Proof.
+  intros ops S H. unfold run_ops in H.
+  assert (forall ops S0 S1, all_maps_ok S0 -> run_ops_from S0 ops = SOk S1 -> all_maps_ok S1) as G.
+  { induction ops0 as [|o r IH]; intros S0 S1 H0 Hr; cbn [run_ops_from] in Hr.
+    - now injection Hr as <-.
+    - apply sbind_ok in Hr. destruct Hr as (S2 & H2 & H3). eapply IH; [|exact H3]. eapply all_maps_ok_apply_op; eauto. }
+  eapply G; [|exact H]. intros s e He. unfold get_entry, sm_empty, nth_N in He.
+  destruct (fst s); cbn in He; destruct (N.to_nat (snd s)); discriminate.
+Qed.
